@@ -109,6 +109,13 @@ def _build(c):
             buf[pre + i] = v
     sm = NO_SCALING if c["scale"] is None else LinearScaleMode(_num(c["scale"]["g"]), _num(c["scale"]["o"]))
     cls = AnalogWaveform if kind == "A" else ComplexWaveform
+    if c.get("swapped") and buf.dtype.names is None and buf.dtype.itemsize > 1:
+        buf = buf.astype(buf.dtype.newbyteorder())      # the same raw values held in the other byte order
+    via = c.get("via", "ctor")
+    if via == "from_1d":
+        return cls.from_array_1d(buf, copy=c.get("copy", True), start_index=pre, sample_count=n, scale_mode=sm)
+    if via == "from_2d":
+        return cls.from_array_2d(np.stack([buf, buf]).astype(buf.dtype), copy=c.get("copy", True), start_index=pre, sample_count=n, scale_mode=sm)[1]
     w = cls(raw_data=buf, start_index=pre, sample_count=n, scale_mode=sm)
     return w
 
@@ -134,8 +141,8 @@ def _decode(kind, out):
     import numpy as np
     name = out.dtype.name
     tag = {"float32": 32, "float64": 64}.get(name, 0) if kind == "A" else {"complex64": 32, "complex128": 64}.get(name, 0)
-    if out.ndim != 1:
-        tag = 0
+    if out.ndim != 1 or not out.dtype.isnative:
+        tag = 0     # exactly the requested dtype: not its byte-swapped twin
     if kind == "A":
         vals = [[_fval(v), [0, 0]] for v in out.tolist()] if tag else []
     else:
@@ -361,6 +368,11 @@ def gen_cases(rng, tier):
         s, k = _window(rng, n)
         cases.append({"kind": kind, "raw": raw, "vals": vals, "req": req, "req_form": rng.choice(["dtype", "type", "str"]),
                       "scale": scale, "start": s, "sc": k, "pre": rng.choice([0, 0, 2]), "post": rng.choice([0, 0, 1])})
+        if rng.random() < 0.15:
+            cases[-1]["swapped"] = True
+        if rng.random() < 0.3:
+            cases[-1]["via"] = rng.choice(["from_1d", "from_2d", "from_2d"])
+            cases[-1]["copy"] = rng.random() < 0.6
     return cases
 
 
